@@ -36,11 +36,15 @@ ARG_KINDS = {
     "x": "V", "y": "V", "u": "V", "v": "V", "data1": "V", "data2": "V", "sigma": "V", "w": "V",
     "vinv": "M", "p": "S", "z": "S", "a": "S", "b": "S",
     "ind1": "NV", "ind2": "NV", "n_features": "N", "ar1": "NV", "ar2": "NV", "arr": "NV", "vec": "V", "val": "S",
+    "rows": "NV", "cols": "NV", "values": "V", "target": "ZV", "unknown_dist": "S", "far_dist": "S",
+    "probabilities": "V", "k": "S", "n_iters": "N", "indices": "NM", "weights": "M", "embedding": "M",
+    "current_init": "M", "n_original_samples": "N",
 }
 LEAN_TYPES = {"S": "α", "V": "List α", "M": "List (List α)", "B": "Bool", "N": "Nat", "Z": "Int", "NV": "List Nat",
-              "BV": "List Bool"}
+              "BV": "List Bool", "NM": "List (List Nat)", "ZV": "List Int"}
 
 FN_ARG_KINDS = {
+    "_finite_mean": {"values": "V"},
     "approx_log_Gamma": {"x": "S"}, "log_beta": {"x": "S", "y": "S"}, "log_single_beta": {"x": "S"},
     "sign": {"a": "S"},
 }
@@ -72,6 +76,10 @@ class Fn:
         self.known = known            # name -> (lean name, arg kinds, return kind) of already translated helpers
         self.uses_T = False
         self.uses_pi = False
+        self.uses_inf = False
+        self.consts = {}
+        self.loops = []               # enclosing translated loops: dicts with 'brk' (name or None) and 'state'
+        self.mutated = []             # argument arrays the function writes into (procedures return them)
         self.partial = any(isinstance(n, ast.Raise) for n in ast.walk(node))
 
     # ---------------------------------------------------------------- expressions
@@ -106,8 +114,21 @@ class Fn:
             return self.const(e, want)
         if isinstance(e, ast.Name):
             if e.id not in env:
+                if e.id in self.consts:
+                    v = self.consts[e.id]
+                    if v == "inf":
+                        self.uses_inf = True
+                        return "infv", "S"
+                    return lit_scalar(v), "S"
                 raise Untranslatable(f"unknown variable {e.id}")
             return lname(e.id), env[e.id]
+        if isinstance(e, ast.Attribute) and e.attr == "flat":
+            c, k = self.expr(e.value, env)
+            if k == "V":
+                return c, "V"
+            if k == "M":
+                return f"({c}).flatten", "V"
+            raise Untranslatable(".flat of a non-array")
         if isinstance(e, ast.Attribute):
             src = ast.unparse(e)
             if src == "np.pi":
@@ -116,6 +137,9 @@ class Fn:
             raise Untranslatable(f"attribute {src}")
         if isinstance(e, ast.Subscript):
             return self.subscript(e, env)
+        if isinstance(e, ast.UnaryOp) and isinstance(e.op, ast.USub) and isinstance(e.operand, ast.Constant) \
+                and isinstance(e.operand.value, int) and want in ("Z", "N"):
+            return f"(-{e.operand.value} : Int)", "Z"
         if isinstance(e, ast.UnaryOp):
             c, k = self.expr(e.operand, env, want)
             if isinstance(e.op, ast.USub):
@@ -165,8 +189,13 @@ class Fn:
         if (isinstance(e.value, ast.Attribute) and e.value.attr == "shape"
                 and isinstance(e.slice, ast.Constant) and e.slice.value == 0):
             c, k = self.expr(e.value.value, env)
-            if k in ("V", "NV", "BV"):
+            if k in ("V", "NV", "BV", "M", "NM", "ZV"):
                 return f"({c}).length", "N"
+        if (isinstance(e.value, ast.Attribute) and e.value.attr == "shape"
+                and isinstance(e.slice, ast.Constant) and e.slice.value == 1):
+            c, k = self.expr(e.value.value, env)
+            if k in ("M", "NM"):
+                return f"(({c}).getD 0 []).length", "N"       # column count of a non-empty matrix
         # slices a[:n], a[1:], a[:-1]
         if isinstance(e.slice, ast.Slice) and e.slice.step is None:
             c, k = self.expr(e.value, env)
@@ -203,6 +232,13 @@ class Fn:
             if k == "NV":
                 i, ki = self.expr(e.slice, env, "N")
                 return f"({base}.getD {self.cast(i, ki, 'N')} 0)", "N"
+            if k == "ZV":
+                i, ki = self.expr(e.slice, env, "N")
+                return f"({base}.getD {self.cast(i, ki, 'N')} 0)", "Z"
+            if k == "NM" and isinstance(e.slice, ast.Tuple) and len(e.slice.elts) == 2:
+                i, ki = self.expr(e.slice.elts[0], env, "N")
+                j, kj = self.expr(e.slice.elts[1], env, "N")
+                return f"(({base}.getD {self.cast(i, ki, 'N')} []).getD {self.cast(j, kj, 'N')} 0)", "N"
             if k == "M" and isinstance(e.slice, ast.Tuple) and len(e.slice.elts) == 2:
                 i, ki = self.expr(e.slice.elts[0], env, "N")
                 j, kj = self.expr(e.slice.elts[1], env, "N")
@@ -269,6 +305,8 @@ class Fn:
             a, ka = self.expr(l, env)
             if isinstance(r, ast.Constant) and ka in ("N", "Z") and intlit(r):
                 b, kb = str(int(r.value)), "N"
+            elif ka in ("N", "Z") and isinstance(r, ast.UnaryOp) and isinstance(r.op, ast.USub) and intlit(r.operand):
+                b, kb = f"(-{int(r.operand.value)} : Int)", "Z"
             else:
                 b, kb = self.expr(r, env, "N" if ka in ("N",) else "S")
         if isinstance(op, (ast.In, ast.NotIn)) and kb == "NV" and ka == "N":
@@ -335,7 +373,25 @@ class Fn:
             if k == "V":
                 return f"(({a}).map {g})", "V"
             return f"({g} {self.cast(a, k, 'S')})", "S"
-        if f in ("np.abs", "abs") and len(args) == 1:
+        if f == "np.log2" and len(args) == 1:
+            a, k = self.expr(args[0], env, "S")
+            self.uses_T = True
+            return f"((T.log {self.cast(a, k, 'S')}) / (T.log ((2 : Nat) : α)))", "S"
+        if f == "np.isfinite" and len(args) == 1:
+            a, k = self.expr(args[0], env, "S")
+            self.uses_inf = True
+            a = self.cast(a, k, "S")
+            return f"((decide ({a} < infv)) && (decide ((-infv) < {a})))", "B"
+        if f == "np.power" and len(args) == 2 and not (isinstance(args[1], ast.Constant) and args[1].value == 2):
+            a, ka = self.expr(args[0], env, "S")
+            b, kb = self.expr(args[1], env, "S")
+            self.uses_T = True
+            if ka == "V" and kb != "V":
+                return f"(({a}).map (fun a => T.pow a {self.cast(b, kb, 'S')}))", "V"
+            if ka != "V" and kb != "V":
+                return f"(T.pow {self.cast(a, ka, 'S')} {self.cast(b, kb, 'S')})", "S"
+            raise Untranslatable("np.power of two arrays")
+        if f in ("np.abs", "abs", "np.fabs") and len(args) == 1:
             a, k = self.expr(args[0], env, "S")
             if k == "V":
                 return f"(({a}).map absV)", "V"
@@ -387,6 +443,11 @@ class Fn:
             # np.zeros(x.shape) / np.empty(x.shape[0], dtype=...)
             if isinstance(n, ast.Attribute) and n.attr == "shape":
                 return f"(List.replicate {lname(n.value.id)}.length (0 : α))", "V"
+            if isinstance(n, ast.Tuple) and len(n.elts) == 2:
+                r, kr = self.expr(n.elts[0], env, "N")
+                c2, kc = self.expr(n.elts[1], env, "N")
+                if kr == "N" and kc == "N":
+                    return f"(List.replicate {r} (List.replicate {c2} (0 : α)))", "M"
             c, k = self.expr(n, env, "N")
             if k == "N":
                 return f"(List.replicate {c} (0 : α))", "V"
@@ -422,7 +483,7 @@ class Fn:
             a, k = self.expr(args[0], env, "S")
             return f"(signPM {self.cast(a, k, 'S')})", "S"
         if f in self.known:
-            lean, akinds, rk, usesT, usesPi = self.known[f]
+            lean, akinds, rk, usesT, usesPi, usesInf = self.known[f]
             if len(args) != len(akinds):
                 raise Untranslatable(f"call of {f} with {len(args)} arguments")
             cs = []
@@ -436,6 +497,9 @@ class Fn:
             if usesPi:
                 self.uses_pi = True
                 pre += " pi"
+            if usesInf:
+                self.uses_inf = True
+                pre += " infv"
             return f"({lean}{pre} " + " ".join(cs) + ")", rk
         raise Untranslatable("call " + ast.unparse(e))
 
@@ -469,7 +533,7 @@ class Fn:
         if not stmts:
             return False
         s = stmts[-1]
-        if isinstance(s, (ast.Return, ast.Raise)):
+        if isinstance(s, (ast.Return, ast.Raise, ast.Break, ast.Continue)):
             return True
         if isinstance(s, ast.If):
             return Fn.returns(s.body) and Fn.returns(s.orelse)
@@ -497,11 +561,28 @@ class Fn:
         pad = "  " * ind
         if not stmts:
             if tail is None:
+                if self.mutated:
+                    self.ret_kind = tuple(env[v] for v in self.mutated) if len(self.mutated) > 1 else env[self.mutated[0]]
+                    return pad + self.ret(self.tuple_of(self.mutated, env))
                 raise Untranslatable("function falls off its end")
             return pad + tail(env)
         s, rest = stmts[0], stmts[1:]
         if isinstance(s, ast.Expr) and isinstance(s.value, ast.Constant) and isinstance(s.value.value, str):
             return self.block(rest, env, ind, tail)          # docstring
+        if isinstance(s, ast.Break):
+            if not self.loops or not self.loops[-1]["brk"]:
+                raise Untranslatable("break outside a translated loop")
+            lp = self.loops[-1]
+            return pad + f"let {lp['brk']} : Bool := true\n" + pad + self.tuple_of(lp["state"], env)
+        if isinstance(s, ast.Continue):
+            if not self.loops:
+                raise Untranslatable("continue outside a translated loop")
+            return pad + self.tuple_of(self.loops[-1]["state"], env)
+        if isinstance(s, ast.Return) and s.value is None:
+            if not self.mutated:
+                raise Untranslatable("bare return in a function that mutates nothing")
+            self.ret_kind = tuple(env[v] for v in self.mutated) if len(self.mutated) > 1 else env[self.mutated[0]]
+            return pad + self.ret(self.tuple_of(self.mutated, env))
         if isinstance(s, ast.Return):
             c, k = self.expr(s.value, env, "S")
             if isinstance(k, str) and k in ("N", "B", "Z"):
@@ -536,6 +617,14 @@ class Fn:
                 c, k = self.expr(s.value, env, "N")
                 a = lname(t.value.id)
                 return pad + f"let {a} := {a}.set {self.cast(i, ki, 'N')} {self.cast(c, k, 'N')}\n" + self.block(rest, env, ind, tail)
+            if isinstance(t, ast.Subscript) and isinstance(t.value, ast.Name) and env.get(t.value.id) == "M" \
+                    and isinstance(t.slice, ast.Tuple) and len(t.slice.elts) == 2:
+                i, ki = self.expr(t.slice.elts[0], env, "N")
+                j, kj = self.expr(t.slice.elts[1], env, "N")
+                c, k = self.expr(s.value, env, "S")
+                a = lname(t.value.id)
+                i, j = self.cast(i, ki, "N"), self.cast(j, kj, "N")
+                return pad + f"let {a} := {a}.set {i} (({a}.getD {i} []).set {j} {self.cast(c, k, 'S')})\n" + self.block(rest, env, ind, tail)
             if isinstance(t, ast.Tuple) and all(isinstance(x, ast.Name) for x in t.elts):
                 c, k = self.expr(s.value, env)
                 if not (isinstance(k, tuple) and len(k) == len(t.elts)):
@@ -568,6 +657,15 @@ class Fn:
                 c, k = self.expr(s.value, env, "S")
                 a = lname(t.value.id)
                 return pad + f"let {a} := {a}.set {i} (({a}.getD {i} 0) {op} {self.cast(c, k, 'S')})\n" + self.block(rest, env, ind, tail)
+            if isinstance(t, ast.Subscript) and isinstance(t.value, ast.Name) and env.get(t.value.id) == "M" \
+                    and isinstance(t.slice, ast.Tuple) and len(t.slice.elts) == 2:
+                i, ki = self.expr(t.slice.elts[0], env, "N")
+                j, kj = self.expr(t.slice.elts[1], env, "N")
+                i, j = self.cast(i, ki, "N"), self.cast(j, kj, "N")
+                c, k = self.expr(s.value, env, "S")
+                a = lname(t.value.id)
+                return (pad + f"let {a} := {a}.set {i} (({a}.getD {i} []).set {j} ((({a}.getD {i} []).getD {j} 0) {op} {self.cast(c, k, 'S')}))\n"
+                        + self.block(rest, env, ind, tail))
             raise Untranslatable("augmented target")
         if isinstance(s, ast.Expr) and isinstance(s.value, ast.Call) and ast.unparse(s.value.func).endswith(".sort") \
                 and isinstance(s.value.func, ast.Attribute) and isinstance(s.value.func.value, ast.Name) \
@@ -629,7 +727,13 @@ class Fn:
 
     def loop(self, s, rest, env, ind, tail):
         pad = "  " * ind
-        if isinstance(s.target, ast.Name) and isinstance(s.iter, ast.Name) and env.get(s.iter.id) in ("V", "NV") and not s.orelse:
+        it_code = it_kind = None
+        if isinstance(s.target, ast.Name) and isinstance(s.iter, (ast.Name, ast.Attribute)) and not s.orelse:
+            try:
+                it_code, it_kind = self.expr(s.iter, env)
+            except Untranslatable:
+                it_code = it_kind = None
+        if it_kind in ("V", "NV"):
             # for v in data: ...  -> a fold over the list itself
             for n_ in ast.walk(s):
                 if isinstance(n_, (ast.Return, ast.Raise, ast.Break, ast.Continue)):
@@ -637,11 +741,11 @@ class Fn:
             state = [v for v in self.assigned(s.body) if v in env]
             if not state:
                 raise Untranslatable("loop without state")
-            ek = "S" if env[s.iter.id] == "V" else "N"
+            ek = "S" if it_kind == "V" else "N"
             env_in = dict(env)
             env_in[s.target.id] = ek
             n = len(state)
-            hdr = pad + f"let {self.tuple_of(state, env) if n > 1 else lname(state[0])} := {lname(s.iter.id)}.foldl (fun (st : {self.tuple_type(state, env)}) ({lname(s.target.id)} : {LEAN_TYPES[ek]}) =>\n"
+            hdr = pad + f"let {self.tuple_of(state, env) if n > 1 else lname(state[0])} := ({it_code}).foldl (fun (st : {self.tuple_type(state, env)}) ({lname(s.target.id)} : {LEAN_TYPES[ek]}) =>\n"
             unpack = "".join("  " * (ind + 2) + f"let {lname(v)} := {self.proj(j, n)}\n" for j, v in enumerate(state))
             body = self.block(s.body, env_in, ind + 2, tail=lambda e_: self.tuple_of(state, e_))
             return hdr + unpack + body + ") " + self.tuple_of(state, env) + "\n" + self.block(rest, env, ind, tail)
@@ -659,9 +763,15 @@ class Fn:
         else:
             raise Untranslatable("range with a step")
         for n_ in ast.walk(s):
-            if isinstance(n_, (ast.Return, ast.Raise, ast.Break, ast.Continue)):
-                raise Untranslatable("control transfer inside a loop")
-        state = [v for v in self.assigned(s.body) if v in env]
+            if isinstance(n_, (ast.Return, ast.Raise)):
+                raise Untranslatable("return / raise inside a loop")
+        has_brk = self.own_transfer(s.body, ast.Break)
+        brk = None
+        if has_brk:
+            brk = f"brk{len(self.loops)}_"
+            env = dict(env)
+            env[brk] = "B"
+        state = [v for v in self.assigned(s.body) if v in env] + ([brk] if brk else [])
         local = [v for v in self.assigned(s.body) if v not in env]
         used_after = {n.id for r in rest for n in ast.walk(r) if isinstance(n, ast.Name)}
         for v in local:
@@ -675,11 +785,30 @@ class Fn:
         env_in = dict(env)
         env_in[s.target.id] = "N"
         n = len(state)
-        hdr = pad + f"let {self.tuple_of(state, env) if n > 1 else lname(state[0])} := {rng}.foldl (fun (st : {self.tuple_type(state, env)}) ({i} : Nat) =>\n"
+        hdr = (pad + f"let {brk} : Bool := false\n" if brk else "")
+        hdr += pad + f"let {self.tuple_of(state, env) if n > 1 else lname(state[0])} := {rng}.foldl (fun (st : {self.tuple_type(state, env)}) ({i} : Nat) =>\n"
         unpack = "".join("  " * (ind + 2) + f"let {lname(v)} := {self.proj(j, n)}\n" for j, v in enumerate(state))
-        body = self.block(s.body, env_in, ind + 2, tail=lambda e_: self.tuple_of(state, e_))
+        self.loops.append({"brk": brk, "state": state})
+        try:
+            if brk:
+                body = ("  " * (ind + 2) + f"if {brk} then {self.tuple_of(state, env_in)} else\n"
+                        + self.block(s.body, env_in, ind + 3, tail=lambda e_: self.tuple_of(state, e_)))
+            else:
+                body = self.block(s.body, env_in, ind + 2, tail=lambda e_: self.tuple_of(state, e_))
+        finally:
+            self.loops.pop()
         ftr = ") " + self.tuple_of(state, env) + "\n"
         return hdr + unpack + body + ftr + self.block(rest, env, ind, tail)
+
+    @staticmethod
+    def own_transfer(stmts, kind):
+        """does the loop body contain a `break` / `continue` of its own (not one of a nested loop)?"""
+        for st in stmts:
+            if isinstance(st, kind):
+                return True
+            if isinstance(st, ast.If) and (Fn.own_transfer(st.body, kind) or Fn.own_transfer(st.orelse, kind)):
+                return True
+        return False
 
     def reassigned_before_use(self, v, rest):
         for s in rest:
@@ -768,6 +897,12 @@ class Fn:
                 raise Untranslatable(f"argument {a} of unknown kind")
             env[a] = k
         self.ret_kind = "S"
+        for n_ in ast.walk(node):
+            if isinstance(n_, (ast.Assign, ast.AugAssign)):
+                for t in (n_.targets if isinstance(n_, ast.Assign) else [n_.target]):
+                    if isinstance(t, ast.Subscript) and isinstance(t.value, ast.Name) and t.value.id in args \
+                            and t.value.id not in self.mutated:
+                        self.mutated.append(t.value.id)
         body = self.block(list(node.body), env, 1, None)
         rk = self.ret_kind
         rt = self.kind_type(rk)
@@ -778,6 +913,8 @@ class Fn:
             params += " (T : Transc α)"
         if self.uses_pi:
             params += " (pi : α)"
+        if self.uses_inf:
+            params += " (infv : α)"
         for a in args:
             params += f" ({lname(a)} : {LEAN_TYPES[env[a]]})"
         code = f"def {lean_name}{params} : {rt} :=\n{body}\n"
@@ -829,7 +966,7 @@ def maskSel {β : Type} (a : List β) (flag : List Bool) : List β := ((a.zip fl
 
 
 def camel(name):
-    parts = name.split("_")
+    parts = name.lstrip("_").split("_")
     return parts[0] + "".join(p[:1].upper() + p[1:] for p in parts[1:])
 
 
@@ -837,6 +974,13 @@ def translate_module(source, names, src_label, ns, props, extra_vars="", extra_d
     """returns (lean text, report) where report maps function name -> 'ok' | reason"""
     tree = ast.parse(source)
     fns = {n.name: n for n in tree.body if isinstance(n, ast.FunctionDef)}
+    consts = {}
+    for n in tree.body:          # module-level numeric constants (SMOOTH_K_TOLERANCE = 1e-5, NPY_INFINITY = np.inf, ...)
+        if isinstance(n, ast.Assign) and len(n.targets) == 1 and isinstance(n.targets[0], ast.Name):
+            if isinstance(n.value, ast.Constant) and isinstance(n.value.value, (int, float)) and not isinstance(n.value.value, bool):
+                consts[n.targets[0].id] = n.value.value
+            elif ast.unparse(n.value) in ("np.inf", "numpy.inf", "float('inf')", 'float("inf")'):
+                consts[n.targets[0].id] = "inf"
     out = [PRELUDE.format(src=src_label, ns=ns, props=props, extra_vars=extra_vars, extra_defs=extra_defs)]
     known, report, meta = {}, {}, {}
     for name in names:
@@ -846,6 +990,7 @@ def translate_module(source, names, src_label, ns, props, extra_vars="", extra_d
             continue
         lean_name = camel(name)
         fn = Fn(fns[name], known)
+        fn.consts = consts
         try:
             code, akinds, rk = fn.translate(lean_name)
         except Untranslatable as e:
@@ -856,8 +1001,8 @@ def translate_module(source, names, src_label, ns, props, extra_vars="", extra_d
             report[name] = f"translator error: {type(e).__name__}: {e}"
             out.append(f"-- {name}: translator error ({type(e).__name__})\n")
             continue
-        known[name] = (lean_name, akinds, rk, fn.uses_T, fn.uses_pi)
-        meta[name] = (lean_name, akinds, rk, fn.uses_T, fn.uses_pi, fn.partial)
+        known[name] = (lean_name, akinds, rk, fn.uses_T, fn.uses_pi, fn.uses_inf)
+        meta[name] = (lean_name, akinds, rk, fn.uses_T, fn.uses_pi, fn.partial, fn.uses_inf)
         report[name] = "ok"
         lines = inspect.cleandoc(ast.get_docstring(fns[name]) or "").split("\n")[0]
         out.append(f"/-- `{name}` ({src_label}:{fns[name].lineno}) -/\n" + code)
@@ -895,10 +1040,15 @@ inductive Arg where
   | m : List (List Float) → Arg
   | n : Nat → Arg
   | i : List Nat → Arg
+  | im : List (List Nat) → Arg
+  | z : List Int → Arg
 
 def fb (x : Float) : String := toString x.toBits.toNat
 def outS (x : Float) : List String := [fb x]
 def outSV (p : Float × List Float) : List String := fb p.1 :: p.2.map fb
+def outV (l : List Float) : List String := l.map fb
+def outM (m : List (List Float)) : List String := m.flatten.map fb
+def infF : Float := 1.0 / 0.0
 def outI (l : List Nat) : List String := "idx" :: l.map toString
 def outIV (p : List Nat × List Float) : List String := ("idx" :: p.1.map toString) ++ ("val" :: p.2.map fb)
 def outO {β} (f : β → List String) : Option β → List String
@@ -927,14 +1077,15 @@ def {fn} (name : String) (a : List Arg) : List String :=
 def run_table(known, mod="DistSrc", ns="Src", fn="run"):
     """Lean text of the dispatch table for the translated functions (`known` as built by translate_module)"""
     out = [RUN_PRELUDE.format(mod=mod, fn=fn)]
-    tag = {"S": "s", "V": "v", "M": "m", "N": "n", "NV": "i"}
-    outs = {"S": "outS", ("S", "V"): "outSV", "NV": "outI", ("NV", "V"): "outIV"}
-    for name, (lean, akinds, rk, usesT, usesPi, partial) in known.items():
+    tag = {"S": "s", "V": "v", "M": "m", "N": "n", "NV": "i", "NM": "im", "ZV": "z"}
+    outs = {"S": "outS", ("S", "V"): "outSV", "NV": "outI", ("NV", "V"): "outIV", "V": "outV", "M": "outM"}
+    for name, (lean, akinds, rk, usesT, usesPi, partial, usesInf) in known.items():
         if any(k not in tag for k in akinds) or rk not in outs:
             continue
         o = outs[rk]
         pats = ", ".join(f".{tag[k]} a{i}" for i, k in enumerate(akinds))
-        call = f"{ns}.{lean}" + (" floatT" if usesT else "") + (" piF" if usesPi else "") + "".join(f" a{i}" for i in range(len(akinds)))
+        call = (f"{ns}.{lean}" + (" floatT" if usesT else "") + (" piF" if usesPi else "") + (" infF" if usesInf else "")
+                + "".join(f" a{i}" for i in range(len(akinds))))
         res = f"outO {o} ({call})" if partial else f"{o} ({call})"
         out.append(f'  | "{name}", [{pats}] => {res}')
     out.append('  | _, _ => ["bad-op"]\n\nend SrcRun\nend Umap\n')
@@ -968,6 +1119,20 @@ def regen_sparse_src(lean_dir, write_if_changed):
     return changed, rep
 
 
+UMAP_FUNCS = ["_finite_mean", "fast_intersection", "reprocess_row", "init_transform", "init_update"]
+
+
+def regen_umap_src(lean_dir, write_if_changed):
+    import os
+    import umap.umap_ as U
+    text, rep = translate_module(inspect.getsource(U), UMAP_FUNCS, "umap/umap_.py", "SrcUmap", "C01Src / C10Src / C11Src / C16Src / C18Src")
+    meta = rep.pop("__meta__")
+    ch = write_if_changed(os.path.join(lean_dir, "Generated", "UmapSrc.lean"), text)
+    ch |= write_if_changed(os.path.join(lean_dir, "Generated", "RunCommon.lean"), RUN_COMMON)
+    ch |= write_if_changed(os.path.join(lean_dir, "Generated", "UmapSrcRun.lean"), run_table(meta, "UmapSrc", "SrcUmap", "runUmap"))
+    return ch, rep
+
+
 LAYOUT_FUNCS = ["clip", "rdist"]
 
 
@@ -996,6 +1161,14 @@ def regen_dist_src(lean_dir, write_if_changed):
 
 if __name__ == "__main__":
     import sys
+    if len(sys.argv) > 1 and sys.argv[1] == "umap":
+        import umap.umap_ as U
+        text, rep = translate_module(inspect.getsource(U), UMAP_FUNCS, "umap/umap_.py", "SrcUmap", "UmapSrcProofs")
+        sys.stdout.write(text)
+        rep.pop("__meta__")
+        for k, v in rep.items():
+            sys.stderr.write(f"{k}: {v}\n")
+        sys.exit(0)
     if len(sys.argv) > 1 and sys.argv[1] == "sparse":
         text, rep = translate_module(sparse_source(), SPARSE_FUNCS, "umap/sparse.py", "SrcSparse", "C13Src*.lean",
                                      extra_vars=" [IntCast α]", extra_defs=SPARSE_DEFS)
